@@ -80,6 +80,7 @@ type hlslResourceDecl struct {
 	Dims     []Expr
 	Reg      *hlslRegister
 	Quals    []string // globallycoherent ...
+	Init     Expr     // object alias initialiser (not evaluated)
 }
 
 var hlslObjectTypes = words(`
@@ -90,7 +91,7 @@ TextureCube TextureCubeArray RWTexture1D RWTexture1DArray RWTexture2D RWTexture2
 SamplerState SamplerComparisonState sampler RaytracingAccelerationStructure
 RasterizerOrderedBuffer RasterizerOrderedByteAddressBuffer RasterizerOrderedStructuredBuffer
 RasterizerOrderedTexture1D RasterizerOrderedTexture2D RasterizerOrderedTexture3D
-RayQuery InputPatch OutputPatch PointStream LineStream TriangleStream
+RayQuery RayDesc BuiltInTriangleIntersectionAttributes CANDIDATE_TYPE COMMITTED_STATUS InputPatch OutputPatch PointStream LineStream TriangleStream
 `)
 
 // hlslNumericType resolves the built-in scalar / vector / matrix type names.
@@ -199,6 +200,14 @@ func hlslTypeName(t *Type) string {
 		return t.Name
 	}
 	return "?"
+}
+
+// hlslBaseTypeName strips template arguments.
+func hlslBaseTypeName(name string) string {
+	if i := strings.IndexByte(name, '<'); i >= 0 {
+		return name[:i]
+	}
+	return name
 }
 
 func (fe *hlslFE) hasDiscard() bool { return true }
@@ -764,6 +773,9 @@ func (fe *hlslFE) parseDeclStmt(p *parser) Stmt {
 		hq.q.Pos.invalid(HLSL, "syntax", "storage class not allowed on a local variable")
 	}
 	tx := fe.parseTypeName(p)
+	if hlslObjectTypes[hlslBaseTypeName(tx.Name)] {
+		tx.Pos.unsupported(HLSL, "local variable of object type %s", tx.Name)
+	}
 	ds := &DeclStmt{Pos: start.Pos}
 	if p.accept(";") {
 		if tx.Struct == nil {
@@ -947,7 +959,8 @@ func (fe *hlslFE) parseExternalDecl(p *parser) *hlslDecl {
 		t.Pos.invalid(HLSL, "syntax", "unexpected %q at global scope", t.String())
 	}
 	// resource objects
-	if hlslObjectTypes[t.Text] {
+	isFuncWithObjectReturn := p.peekN(1).Kind == TIdent && p.peekN(2).Kind == TPunct && p.peekN(2).Text == "("
+	if hlslObjectTypes[t.Text] && !isFuncWithObjectReturn {
 		tx := fe.parseTypeName(p)
 		rd := &hlslResourceDecl{Pos: tx.Pos, TypeName: t.Text, Quals: hq.other}
 		if len(tx.Name) > len(t.Text) {
@@ -961,8 +974,17 @@ func (fe *hlslFE) parseExternalDecl(p *parser) *hlslDecl {
 		rd.Pos = name.Pos
 		rd.Dims = fe.parseArrayDims(p)
 		rd.Reg = fe.parseRegister(p)
-		if p.isPunct("=") || p.isPunct("{") {
-			p.peek().Pos.unsupported(HLSL, "resource initialiser / sampler state block")
+		if p.isPunct("{") {
+			p.peek().Pos.unsupported(HLSL, "sampler state block")
+		}
+		if p.accept("=") {
+			// "static const SamplerState s = heap[index];": an object alias; the
+			// initialiser is parsed but not evaluated (objects other than byte
+			// address buffers are type-checked as names only)
+			if !hq.static {
+				rd.Pos.unsupported(HLSL, "initialiser of a non-static resource variable")
+			}
+			rd.Init = p.parseAssign()
 		}
 		p.expect(";")
 		p.declareVar(name.Text)
@@ -1085,6 +1107,77 @@ func (fe *hlslFE) parseExternalDecl(p *parser) *hlslDecl {
 	d.Vars = fe.parseDeclarators(p, hq.q, tx)
 	p.expect(";")
 	return d
+}
+
+// hlslMergeTemplateCalls merges ". Name < T > (" (templated method call, e.g.
+// buf.Load<int64_t>(0)) into a single identifier token "Name<T>" so that the
+// shared postfix parser sees a method call; checkMethod reports such methods as
+// not modelled.
+func hlslMergeTemplateCalls(toks []Token) []Token {
+	out := toks[:0:0]
+	for i := 0; i < len(toks); i++ {
+		t := toks[i]
+		if t.Kind == TIdent && i > 0 && toks[i-1].Kind == TPunct && toks[i-1].Text == "." && i+4 < len(toks) &&
+			toks[i+1].Kind == TPunct && toks[i+1].Text == "<" && toks[i+2].Kind == TIdent &&
+			toks[i+3].Kind == TPunct && toks[i+3].Text == ">" && toks[i+4].Kind == TPunct && toks[i+4].Text == "(" {
+			t.Text = t.Text + "<" + toks[i+2].Text + ">"
+			out = append(out, t)
+			i += 3
+			continue
+		}
+		out = append(out, t)
+	}
+	return out
+}
+
+var hlslStmtAttributes = words(`branch flatten loop unroll fastopt allow_uav_condition forcecase call`)
+
+// hlslDropStatementAttributes removes "[branch]", "[loop]", "[unroll(4)]" ...
+// in front of if / for / while / do / switch (HLSL reference, "Flow Control":
+// the attributes only guide code generation).  An unknown attribute name in
+// that position is an InvalidError.
+func hlslDropStatementAttributes(toks []Token) []Token {
+	out := toks[:0:0]
+	droppedUpTo := -2
+	for i := 0; i < len(toks); i++ {
+		t := toks[i]
+		if t.Kind == TPunct && t.Text == "[" && i+2 < len(toks) && toks[i+1].Kind == TIdent && i > 0 {
+			prev := toks[i-1]
+			atStmtStart := prev.Kind == TPunct && (prev.Text == "{" || prev.Text == "}" || prev.Text == ";" || prev.Text == ":") ||
+				prev.Kind == TIdent && (prev.Text == "else" || prev.Text == "do") || droppedUpTo == i-1
+			j := i + 2
+			if j < len(toks) && toks[j].Kind == TPunct && toks[j].Text == "(" {
+				depth := 0
+				for ; j < len(toks); j++ {
+					if toks[j].Kind == TPunct && toks[j].Text == "(" {
+						depth++
+					}
+					if toks[j].Kind == TPunct && toks[j].Text == ")" {
+						depth--
+						if depth == 0 {
+							j++
+							break
+						}
+					}
+				}
+			}
+			if atStmtStart && j+1 < len(toks) && toks[j].Kind == TPunct && toks[j].Text == "]" {
+				nx := toks[j+1]
+				isStmt := nx.Kind == TIdent && (nx.Text == "if" || nx.Text == "for" || nx.Text == "while" || nx.Text == "do" || nx.Text == "switch") ||
+					nx.Kind == TPunct && nx.Text == "["
+				if isStmt {
+					if !hlslStmtAttributes[toks[i+1].Text] {
+						toks[i+1].Pos.invalid(HLSL, "syntax", "unknown statement attribute [%s]", toks[i+1].Text)
+					}
+					i = j
+					droppedUpTo = j
+					continue
+				}
+			}
+		}
+		out = append(out, t)
+	}
+	return out
 }
 
 // hlslPrelex rewrites the spellings of infinity that the shared tokenizer
